@@ -71,6 +71,8 @@ class C16(Prop):
         keys = [b"k1", "s2", b"n3", "m4"]
         if uni:
             keys.append("ключ")
+        if "key_prefix" in ck and rng.random() < 0.2:
+            keys[rng.randrange(len(keys))] = rng.choice([b"", ""])    # legal once the prefix is in front of it
         if rng.random() < 0.3:
             # legal keys that are not text at all: a raw digest, a Latin-1 byte
             keys[rng.randrange(len(keys))] = rng.choice([bytes.fromhex("9f86d081884c7d659a2feaa0c55ad015"),
